@@ -1,13 +1,13 @@
-package c17
+package wcobj
 
 import "testing"
 
 func TestObjOfSize(t *testing.T) {
-	t.Logf("minObjSize=%d", minObjSize)
+	t.Logf("MinObjSize=%d", MinObjSize)
 	miss := 0
-	for _, rng := range [][2]int{{minObjSize, minObjSize + 600}, {16300, 16500}, {20000, 20010}} {
+	for _, rng := range [][2]int{{MinObjSize, MinObjSize + 600}, {16300, 16500}, {20000, 20010}} {
 		for n := rng[0]; n <= rng[1]; n++ {
-			if !sizeReachable(n) {
+			if !SizeReachable(n) {
 				continue
 			}
 			func() {
@@ -17,7 +17,7 @@ func TestObjOfSize(t *testing.T) {
 						t.Logf("miss %d: %v", n, r)
 					}
 				}()
-				_, _, b := objOfSize(2, 3, n)
+				_, _, b := ObjOfSize(2, 3, n)
 				if len(b) != n {
 					t.Fatalf("size %d != %d", len(b), n)
 				}
